@@ -147,6 +147,48 @@ def _canon(P, m):
     return [[k, inv[k]] for k, _ in P['nodes'] if k in inv]
 
 
+def _autos(P):
+    keys = [k for k, _ in P['nodes']]
+    col = dict((k, c) for k, c in P['nodes'])
+    E = {frozenset((a, b)): c for a, b, c in P['edges']}
+    out = []
+    for perm in itertools.permutations(keys):
+        f = dict(zip(keys, perm))
+        if any(col[k] != col[f[k]] for k in keys):
+            continue
+        if all(E.get(frozenset((a, b))) == E.get(frozenset((f[a], f[b]))) for a, b in itertools.combinations(keys, 2)):
+            out.append(f)
+    return out
+
+
+def _find_base(P, cosets):
+    """an order of the coset keys for which the cosets are the orbits of a stabiliser chain (a proposal; Coq checks it)"""
+    if len(P['nodes']) > 6:
+        return None
+    A = _autos(P)
+    keys = [k for k, _ in P['nodes']]
+    cons = {(b, t) for b, ts in cosets.items() for t in ts if t != b}
+
+    def ok(base):
+        exp, pre = set(), []
+        for b in base:
+            for a in A:
+                if all(a[p] == p for p in pre) and a[b] != b:
+                    exp.add((b, a[b]))
+            pre.append(b)
+        return cons == exp and all(all(a[x] == x for x in keys) for a in A if all(a[p] == p for p in base))
+    base = list(cosets.keys())
+    if ok(base):
+        return base
+    moved = [b for b in base if any(t != b for t in cosets[b])]
+    rest = [b for b in base if b not in moved]
+    if len(moved) <= 6:
+        for perm in itertools.permutations(moved):
+            if ok(list(perm) + rest):
+                return list(perm) + rest
+    return None
+
+
 def run_impl(inp):
     from vermouth.ismags import ISMAGS
     cache = {}
@@ -164,8 +206,10 @@ def run_impl(inp):
         if len(P):
             _, cosets = ism.analyze_symmetry(P, ism._sgn_partitions, ism._sge_colors)
             res['cons'] = sorted([list(c) for c in ism._make_constraints(cosets)])
+            res['base'] = _find_base(st['P'], cosets)
         else:
             res['cons'] = []
+            res['base'] = []
         out.append(res)
     return {'steps': out}
 
@@ -187,7 +231,8 @@ def emit(inp, out):
         P, G = graph_lit(st['P']), graph_lit(st['G'])
         for sym in (0, 1):
             cons = listlit(res['cons'] if sym else [], lambda c: '(%s, %s)' % (zlit(c[0]), zlit(c[1])))
-            terms.append('CIso %s %s %s %s %s' % (P, G, blit(bool(sym)), cons, maps_lit(res['iso_%d' % sym])))
+            base = 'None' if (not sym or res.get('base') is None) else '(Some %s)' % listlit(res['base'], zlit)
+            terms.append('CIso %s %s %s %s %s %s' % (P, G, blit(bool(sym)), cons, base, maps_lit(res['iso_%d' % sym])))
             terms.append('CLcs %s %s %s %s' % (P, G, blit(bool(sym)), maps_lit(res['lcs_%d' % sym])))
     return 'CSession [%s]' % '; '.join(terms)
 
@@ -204,7 +249,8 @@ def describe(inp, out):
     return {'n_steps': len(inp['steps']), 'p_nodes': len(st['P']['nodes']), 'g_nodes': len(st['G']['nodes']),
             'n_iso': min(len(res['iso_0']), 12), 'n_iso_sym': min(len(res['iso_1']), 6), 'n_constraints': min(len(res['cons']), 6),
             'lcs_size': max([len(m) for m in res['lcs_0']] or [0]),
-            'node_colours': len({c for _, c in st['G']['nodes']}), 'recoloured_followup': len(inp['steps']) > 1}
+            'node_colours': len({c for _, c in st['G']['nodes']}), 'recoloured_followup': len(inp['steps']) > 1,
+            'lexleader_certificate': all(r.get('base') is not None for r in out['steps'])}
 
 
 def shrink(inp):
